@@ -23,8 +23,13 @@ for n in names:
         continue
     fired = {}
     try:
-        for c in checks + extra:
-            p = subprocess.run(["./check", c, "quick"], cwd=VERIF, capture_output=True, text=True)
+        from concurrent.futures import ThreadPoolExecutor
+        todo = checks + extra
+        # the first check builds the MIR facts and the emission templates for this tree; the rest read the caches in parallel
+        first = subprocess.run(["./check", "C02", "quick"], cwd=VERIF, capture_output=True, text=True)
+        with ThreadPoolExecutor(max_workers=8) as ex:
+            procs = list(ex.map(lambda c: (c, first if c == "C02" else subprocess.run(["./check", c, "quick"], cwd=VERIF, capture_output=True, text=True)), todo))
+        for c, p in procs:
             viol = [l.strip() for l in p.stdout.splitlines() if l.strip().startswith("violation rule=")]
             if p.returncode == 1:
                 fired[c] = viol
